@@ -203,7 +203,13 @@ func c15GenLine(t *rapid.T) string {
 	default:
 		payload = strings.Repeat(rapid.SampledFrom([]string{"ab ", ": ", "\r", "é "}).Draw(t, "rep"), rapid.IntRange(1, 300).Draw(t, "repn"))
 	}
-	return prefix + payload
+	line := prefix + payload
+	// a terminator as the very first byte: the parser trims it, so the command behind it is still
+	// executed, with whatever the rest of the text contains
+	if rapid.IntRange(0, 7).Draw(t, "leadingterminator") == 0 {
+		line = rapid.SampledFrom([]string{"\r\n", "\n", "\r", "\x00", "\n\r\n", "\r\x00"}).Draw(t, "leading") + line
+	}
+	return line
 }
 
 func TestVerifC15(t *testing.T) {
